@@ -49,6 +49,14 @@ type blk struct {
 	vars    map[string]int
 }
 
+// midReorg: roll back to height h and connect n fresh blocks, once.
+type midReorg struct {
+	h, n int
+	done bool
+	ids  []int
+	ret  string
+}
+
 type world struct {
 	t      *tr.W
 	r      *rand.Rand
@@ -71,6 +79,7 @@ type world struct {
 	onQuery func(req wire.Message, deliver func(addr string, resp wire.Message) bool)
 	onBatch func(reqs []*query.Request) chan error
 	gbFail  map[int]bool // heights at which GetBlock fails
+	mid     *midReorg    // a reorganisation to perform while the cfheaders query is out
 	nonce   uint32
 }
 
@@ -406,6 +415,7 @@ func (w *world) variant(b *blk, kind string) int {
 	}
 	id := w.build(b, el)
 	b.vars[kind] = id
+	w.t.Line("fb %d %d => -", id, b.id)
 	return id
 }
 
